@@ -344,6 +344,24 @@ def run(res, tier, seed, replay_script=None):
         for cid, spec, ls in corpus:
             specs[cid], scripts[cid] = spec, ls
             lines += ls
+    # systematic matrix: every local rule x every strategy x {tolerance 0, small} x {constant, smooth} data (and wavelets),
+    # two refinement rounds each, so that every strategy/rule pair and the "tolerance 0 refines everything" branch is always exercised
+    if not replay_script:
+        mi = 0
+        for fam, rule, order in [("localp", "localp", 1), ("localp", "localp", 2), ("localp", "semi-localp", 2), ("localp", "localp-zero", 1),
+                                 ("localp", "localp-boundary", 1), ("localp", "localp-boundary", 3), ("localp", "localp", 0), ("wavelet", "", 1), ("wavelet", "", 3)]:
+            for crit in gl.REFINE:
+                for tol in (0.0, 1e-3):
+                    fnm = ["one", "smooth"][mi % 2] if tol == 0.0 else ["smooth", "hash"][mi % 2]
+                    dd = 1 + (mi % 2)
+                    cid = "x%d" % mi
+                    mi += 1
+                    spec = {"family": fam, "dims": dd, "outs": 1, "depth": 2 if fam == "localp" else 1, "order": order, "rule": rule, "ll": []}
+                    ls = ["case " + cid, gl.make_cmd(spec), OBS, "load g " + fnm, OBS + " coef",
+                          "refsurp g %s %s -1" % (vlib.hexf(tol), crit), OBS + " coef", "load g " + fnm, OBS + " coef",
+                          "refsurp g %s %s 0" % (vlib.hexf(tol), crit), OBS + " coef"]
+                    specs[cid], scripts[cid] = spec, ls
+                    lines += ls
     for i in range(n):
         cid = "h%d" % i
         spec, ls = gen_history(r, cid, tier)
